@@ -386,7 +386,24 @@ def main(argv):
     ap.add_argument('--replay')
     a = ap.parse_args(argv)
     if a.replay:
-        print(open(a.replay).read())
+        # a replay file names the property and the failed obligation and carries the verifier output / the concrete input; replaying
+        # = showing it and deciding the SAME obligation again on the current tree (exit 1 if it still fails, 0 if it holds now)
+        txt = open(a.replay).read()
+        print(txt)
+        m = re.search(r'^property: (C\d+)', txt, re.M)
+        mo = re.search(r'^failed obligation: (.*)$', txt, re.M)
+        if not m or m.group(1) not in PROPS:
+            return 0
+        prop = m.group(1)
+        print('--- replay: deciding %s again on %s ---' % (prop, REPO))
+        out, wall = decide(prop, 'quick', 0)
+        still = [v for v in out.violations if mo and v['obligation'] == mo.group(1).strip()]
+        for v in still:
+            print('STILL FAILING: %s' % v['obligation'])
+            print('VIOLATION property=%s replay=%s%s' % (prop, a.replay, '' if v.get('cex') and v['cex'].get('confirmed') else ' no-failing-input-found'))
+        if still:
+            return 1
+        print('obligation %s does not fail on the current tree (%d other violation(s), %d undecided)' % (mo.group(1).strip() if mo else '?', len(out.violations), len(out.undecided)))
         return 0
     prop = a.prop
     if prop not in PROPS:
